@@ -5,7 +5,7 @@
   theorems: outside it the model is proved to satisfy the spec.
 -/
 import SugarModel.Model.Dispatch
-import SugarModel.Spec.RefColl
+import SugarModel.Spec.RefZSet
 namespace Sugar.Known
 open Sugar
 
@@ -125,6 +125,9 @@ def keyArgsColl (cmd : List Bytes) : List Bytes :=
     if n == b "lmove" || n == b "smove" then args.take 2
     else if n == b "sdiff" || n == b "sinter" || n == b "sunion" || n == b "sdiffstore" || n == b "sinterstore" ||
             n == b "sunionstore" || n == b "sintercard" then args
+    else if n == b "zdiff" || n == b "zinter" || n == b "zunion" || n == b "zdiffstore" || n == b "zinterstore" ||
+            n == b "zunionstore" || n == b "zmpop" then args
+    else if n == b "zrangestore" then args.take 2
     else args.take 1
 
 def adjacentPair (l : List Bytes) (v : Bytes) : Bool :=
@@ -156,7 +159,7 @@ def classifyColl (c : Ctx) (s : State) (cmd : List Bytes) : Option String :=
     | some (.done (.ok r)) => r == b "*0"
     | _ => false
   if (keyArgsColl cmd).any (expiredPresent c s) then some "expired-key-still-exists"
-  else if (keyArgsColl cmd).any (fun k => match liveVal c s k with | some v => v.oid != 0 | none => false) then some "set-object-shared-between-keys"
+  else if (keyArgsColl cmd).any (fun k => match liveVal c s k with | some (.set o _) => o != 0 | _ => false) then some "set-object-shared-between-keys"
   else if n == b "lrange" && modelPanics then some "lrange-index-panic"
   else if n == b "ltrim" && modelPanics then some "ltrim-index-panic"
   else if n == b "lmove" && modelPanics then some "lmove-empty-source-panic"
@@ -204,10 +207,209 @@ def classifyColl (c : Ctx) (s : State) (cmd : List Bytes) : Option String :=
       | _, _ => false) then some "srandmember-negative-count-capped"
   else none
 
+
+/-! ### sorted sets (C17) -/
+
+def liveZ (c : Ctx) (s : State) (k : Bytes) : Option (KMap Flt) :=
+  match liveVal c s k with
+  | some (.zset _ ms) => some ms
+  | _ => none
+
+/-- does position `i` of the reference order share its score with position `i+1` -/
+def tieAt (order : List (Bytes × Flt)) (i : Nat) : Bool :=
+  match order[i]?, order[i + 1]? with
+  | some x, some y => x.2 == y.2
+  | _, _ => false
+
+def hasTie (ms : List (Bytes × Flt)) : Bool := (ms.map (·.2)).eraseDups.length != ms.length
+
+def lexDisagrees (x y : Bytes) : Bool := compareLex x y != lexCmp x y
+
+/-- does the code's LIMIT handling (positions offset..count of the *unfiltered* order, both ends included,
+    early exit when offset > cardinality) select something else than LIMIT applied to the filtered sequence;
+    BYLEX and unparsable forms are answered conservatively with `true` -/
+def limitDiffers (ms : KMap Flt) (start stop : Bytes) (opts : List Bytes) : Bool :=
+  match Spec.rangeOpts opts {} with
+  | .ok o =>
+    if o.bylex then true else
+    match o.limit, parseFloat64 start, parseFloat64 stop with
+    | some (off, cnt), some (some lo), some (some hi) =>
+      if off < 0 then false else
+      let card : Int := ms.length
+      let order := if o.rev then (Spec.refOrder ms).reverse else Spec.refOrder ms
+      let cnt' := if cnt < 0 then card - off else cnt
+      let lit := if off > card then [] else
+        (order.zipIdx.filter fun (z, i) => decide (off ≤ (i : Int)) && decide ((i : Int) ≤ cnt') && lo.le z.2 && z.2.le hi).map (·.1)
+      (lit.map (·.1)) != ((Spec.window o (order.filter fun z => lo.le z.2 && z.2.le hi)).map (·.1))
+    | _, _, _ => true
+  | _ => true
+
+/-- ZADD without INCR on an existing sorted set, pair by pair against the reference map as it evolves:
+    the first pair on which the code's count or stored score departs names the class -/
+def zaddSeqClass (f : Spec.ZFlags) : KMap Flt → List (Bytes × Flt) → Option String
+  | _, [] => none
+  | cur, (m, sc) :: r =>
+    let old := cur.get m
+    let allowed := Spec.zaddAllowed f old sc
+    let next := if allowed then cur.put m sc else cur
+    match old with
+    | none =>
+      if (f.gt || f.lt) && !f.xx && compareScores Flt.zero sc (if f.gt then b "gt" else b "lt") != sc then
+        some "zadd-gt-lt-new-member-compared-with-zero"
+      else zaddSeqClass f next r
+    | some o =>
+      if f.ch && ((f.xx && (o == sc || !allowed)) || (!f.xx && !f.nx && o != sc && !allowed)) then
+        some "zadd-ch-counts-unchanged-members"
+      else if !f.ch && !f.nx && !f.xx && o != sc then some "zadd-counts-updates-without-ch"
+      else zaddSeqClass f next r
+
+/-- sorted-set commands: the first applicable class -/
+def classifyZSet (c : Ctx) (s : State) (cmd : List Bytes) : Option String :=
+  let n := cmdName cmd
+  let key := cmd.getD 1 []
+  let lv := liveVal c s key
+  let zs := liveZ c s key
+  let modelPanics := match (step c s cmd).map (·.2) with
+    | some (.panic _) => true
+    | _ => false
+  let optsHave (from_ : Nat) (w : Bytes) : Bool := (cmd.drop from_).any fun t => isAscii t && eqFold t w
+  if n == b "zadd" && cmd.length ≥ 4 then
+    let (f, rest) := Spec.zaddFlags (cmd.drop 2) {}
+    if (Spec.scoreArg key).isSome then some "zadd-numeric-key-rejected" else
+    match Spec.zaddPairs rest with
+    | .bad =>
+      -- a later score that is not a number is skipped together with its member
+      if rest.length ≥ 2 && rest.length % 2 == 0 && (Spec.scoreArg (rest.headD [])).isSome then some "zadd-non-numeric-score-skipped" else none
+    | .silent => none
+    | .ok pairs =>
+      if (f.nx && f.xx) || (f.gt && f.lt) then some "zadd-conflicting-flags-accepted" else
+      if (f.nx && f.xx) || (f.nx && (f.gt || f.lt)) || (f.gt && f.lt) || (f.incr && pairs.length != 1) then none else
+      if lv.isNone then
+        (if f.nx || f.xx || f.gt || f.lt || f.incr || (f.ch && (pairs.map (·.1)).eraseDups.length != pairs.length)
+         then some "zadd-flags-ignored-on-new-key" else none)
+      else match zs with
+      | none => none
+      | some ms =>
+        if f.incr then
+          match pairs with
+          | [(m, d)] =>
+            (match ms.get m with
+             | some o => if o.isInf && (Spec.scoreSum o d).isSome then some "zincrby-infinite-score-rejected"
+                         else if (f.nx || f.xx || f.gt || f.lt) then some "zadd-incr-ignores-conditions" else none
+             | none => if (f.nx || f.xx || f.gt || f.lt) then some "zadd-incr-ignores-conditions" else none)
+          | _ => none
+        else zaddSeqClass f ms pairs
+  else if n == b "zincrby" && cmd.length == 4 then
+    match zs, Spec.scoreArg (cmd.getD 2 []) with
+    | some ms, some (some d) => (match ms.get (cmd.getD 3 []) with
+        | some o => if o.isInf && (Spec.scoreSum o d).isSome then some "zincrby-infinite-score-rejected" else none
+        | none => none)
+    | _, _ => none
+  else if n == b "zmscore" && cmd.length ≥ 3 && lv.isNone then some "zmscore-absent-key-empty-array"
+  else if n == b "zcount" && cmd.length == 4 &&
+      ((match adaptType (cmd.getD 2 []), parseFloat64 (cmd.getD 2 []) with
+        | .str t, some (some f) => f.isInf && toLower t != b "+inf"
+        | _, _ => false) ||
+       (match adaptType (cmd.getD 3 []), parseFloat64 (cmd.getD 3 []) with
+        | .str t, some (some f) => f.isInf && toLower t != b "-inf"
+        | _, _ => false)) then some "zcount-infinity-spelling-rejected"
+  else if (n == b "zinter" || n == b "zunion" || n == b "zinterstore" || n == b "zunionstore") && modelPanics then
+    some "zcombine-trailing-aggregate-panics"
+  else if (n == b "zinterstore" || n == b "zunionstore") && (cmd.drop 2).contains key then some "zstore-destination-dropped-from-operands"
+  else if n == b "zinterstore" && cmd.length ≥ 3 && zinterstoreKeyFuncErr cmd then some "zinterstore-options-need-two-keys"
+  else if n == b "zunionstore" && cmd.length ≥ 3 && !Spec.isCombineWord key && ((cmd.drop 2).takeWhile fun t => !Spec.isCombineWord t).isEmpty then
+    some "zunionstore-without-source-keys-accepted"
+  else if (n == b "zinterstore" || n == b "zdiffstore") && (match zs with
+      | some ms => !ms.isEmpty
+      | none => false) &&
+      (if n == b "zdiffstore" then (liveVal c s (cmd.getD 2 [])).isNone
+       else ((cmd.drop 2).takeWhile fun t => !Spec.isCombineWord t).any fun k => (liveVal c s k).isNone) then
+    some "zstore-absent-operand-keeps-destination"
+  else if n == b "zrangestore" && cmd.length ≥ 5 && (liveVal c s (cmd.getD 2 [])).isNone then some "zrangestore-absent-source-replies-empty-array"
+  else if n == b "zmpop" && ((cmd.drop 1).takeWhile fun t => !Spec.isZmpopWord t).any (fun k => match liveVal c s k with
+      | some (.zset _ _) => false
+      | some _ => true
+      | none => false) then some "zmpop-skips-wrong-type-key"
+  else if (n == b "zpopmin" || n == b "zpopmax") && cmd.length == 3 && parseInt64 (cmd.getD 2 []) == some 0 &&
+      (match zs with
+       | some ms => !ms.isEmpty
+       | none => false) then some "zpop-zero-count-pops-one"
+  else if n == b "zrandmember" && cmd.length ≥ 3 && (match zs, parseInt64 (cmd.getD 2 []) with
+      | some ms, some cnt => !ms.isEmpty && cnt == 0
+      | _, _ => false) then some "zrandmember-zero-count-returns-one"
+  else if n == b "zrandmember" && cmd.length ≥ 3 && (match zs, parseInt64 (cmd.getD 2 []) with
+      | some ms, some cnt => !ms.isEmpty && decide (cnt < 0) && decide (cnt.natAbs > ms.length)
+      | _, _ => false) then some "zrandmember-negative-count-capped"
+  else if n == b "zremrangebyrank" && cmd.length == 4 then
+    match zs, parseInt64 (cmd.getD 2 []), parseInt64 (cmd.getD 3 []) with
+    | some ms, some st, some en =>
+      let card : Int := ms.length
+      let start := if st < 0 then st + card else st
+      let stop := if en < 0 then en + card else en
+      if start < 0 || start > card - 1 || stop < 0 || stop > card - 1 then some "zremrangebyrank-rejects-out-of-range-indices"
+      else if start > stop then some "zremrangebyrank-reversed-range-removes"
+      else if (start > 0 && tieAt (Spec.refOrder ms) (start.toNat - 1)) || tieAt (Spec.refOrder ms) stop.toNat then
+        some "zset-ties-ordered-by-map-iteration"
+      else none
+    | _, _, _ => none
+  else if (n == b "zlexcount" || n == b "zremrangebylex") && cmd.length == 4 && (match zs with
+      | some ms => ms.any fun z => lexDisagrees z.1 (cmd.getD 2 []) || lexDisagrees z.1 (cmd.getD 3 [])
+      | none => false) then some "lex-compare-substring-rule"
+  else if (n == b "zrange" || n == b "zrangestore") then
+    let i := if n == b "zrange" then 2 else 3
+    let src := if n == b "zrange" then key else cmd.getD 2 []
+    match liveZ c s src with
+    | none => none
+    | some ms =>
+      if cmd.length < i + 2 then none
+      else if optsHave (i + 2) (b "limit") && limitDiffers ms (cmd.getD i []) (cmd.getD (i + 1) []) (cmd.drop (i + 2)) then
+        some "zrange-limit-window-misapplied"
+      else if n == b "zrangestore" && (match zs with
+          | some d => !d.isEmpty
+          | none => false) && (match Spec.rangeOpts (cmd.drop (i + 2)) {} with
+          | .ok o => (match o.limit with
+              | some (off, _) => decide (off > (ms.length : Int))
+              | none => false) || (o.bylex && !Spec.zAllSame ms)
+          | _ => false) then some "zrangestore-early-exit-keeps-destination"
+      else if ms.isEmpty then none
+      else if optsHave (i + 2) (b "bylex") then
+        (if ms.any (fun z => lexDisagrees z.1 (cmd.getD i []) || lexDisagrees z.1 (cmd.getD (i + 1) []) ||
+                     ms.any fun y => lexDisagrees z.1 y.1) then some "lex-compare-substring-rule" else none)
+      else if n == b "zrange" then
+        match parseFloat64 (cmd.getD i []), parseFloat64 (cmd.getD (i + 1) []) with
+        | some (some lo), some (some hi) =>
+          if hasTie (ms.filter fun z => lo.le z.2 && z.2.le hi) then some "zset-ties-ordered-by-map-iteration" else none
+        | _, _ => none
+      else if optsHave (i + 2) (b "limit") && hasTie ms then some "zset-ties-ordered-by-map-iteration"
+      else none
+  else if (n == b "zrank" || n == b "zrevrank") && cmd.length == 4 && isAscii (cmd.getD 3 []) && eqFold (cmd.getD 3 []) (b "withscore") &&
+      (match zs with
+       | some ms => (ms.get (cmd.getD 2 [])).isSome
+       | none => false) then some "zrank-withscore-option-ignored"
+  else if (n == b "zrank" || n == b "zrevrank") && cmd.length ≥ 3 then
+    match zs with
+    | some ms => (match ms.get (cmd.getD 2 []) with
+        | some sc => if (ms.filter fun z => z.2 == sc).length ≥ 2 then some "zset-ties-ordered-by-map-iteration" else none
+        | none => none)
+    | none => none
+  else if (n == b "zpopmin" || n == b "zpopmax") && cmd.length ≥ 2 then
+    match zs, (if cmd.length == 3 then parseInt64 (cmd.getD 2 []) else some 1) with
+    | some ms, some cnt =>
+      let order := if n == b "zpopmax" then (Spec.refOrder ms).reverse else Spec.refOrder ms
+      if cnt > 0 && tieAt order (cnt.toNat - 1) then some "zset-ties-ordered-by-map-iteration" else none
+    | _, _ => none
+  else if n == b "zmpop" then
+    match ((cmd.drop 1).takeWhile fun t => !Spec.isZmpopWord t).findSome? fun k => match liveZ c s k with
+        | some ms => if ms.isEmpty then none else some ms
+        | none => none with
+    | some ms => if hasTie ms then some "zset-ties-ordered-by-map-iteration" else none
+    | none => none
+  else none
+
 /-- classes of the purity / no-aliasing property (C13) -/
 def classifyPure (c : Ctx) (s : State) (cmd : List Bytes) : Option String :=
   let n := cmdName cmd
-  if (keyArgsColl cmd).any (fun k => match liveVal c s k with | some v => v.oid != 0 | none => false) then some "set-object-shared-between-keys"
+  if (keyArgsColl cmd).any (fun k => match liveVal c s k with | some (.set o _) => o != 0 | _ => false) then some "set-object-shared-between-keys"
   else if n == b "sunion" && (cmd.drop 1).eraseDups.length ≥ 2 then some "sunion-mutates-operand"
   else if n == b "sunionstore" then some "sunionstore-destination-aliases-source"
   else if n == b "sinterstore" && (cmd.drop 2).eraseDups.length == 1 then some "sinterstore-single-key-aliases-source"
@@ -215,7 +417,7 @@ def classifyPure (c : Ctx) (s : State) (cmd : List Bytes) : Option String :=
 
 /-- classification over every specified command -/
 def classifyAll (c : Ctx) (s : State) (cmd : List Bytes) : Option String :=
-  (classifyKv c s cmd).orElse fun _ => classifyColl c s cmd
+  ((classifyKv c s cmd).orElse fun _ => classifyColl c s cmd).orElse fun _ => classifyZSet c s cmd
 
 /-- classes of the memory-accounting property (C19): where `memUsed` stops being a function of the dataset -/
 def classifyMem (c : Ctx) (s : State) (cmd : List Bytes) : Option String :=
